@@ -7,6 +7,7 @@ package main
 import (
 	"fmt"
 	"runtime"
+	"sort"
 	"strings"
 	"time"
 
@@ -119,7 +120,22 @@ counter n
 /^u/ {
   n++
 }
-`, []string{"t 1000", "t 2000", "u", "t 0"}},
+/^r/ {
+  ts = timestamp()
+}
+`, []string{"t 1000", "t 2000", "u", "t 0", "r"}},
+	{"strptime-then-plain", `counter stamped
+counter plain
+gauge seen
+/^(\d{4}-\d\d-\d\d) / {
+  strptime($1, "2006-01-02")
+  stamped++
+}
+/plain/ {
+  plain++
+  seen = timestamp()
+}
+`, []string{"2001-02-03 x", "2001-02-03 plain", "plain", "other"}},
 }
 
 func snapshotInto(src, dst []*metrics.Metric) error {
@@ -160,7 +176,51 @@ func snapshotInto(src, dst []*metrics.Metric) error {
 	return nil
 }
 
-func tsIsNowish(line string) bool { return false }
+// maskNow dumps the program's metrics with every integer value inside the clock
+// bracket (seconds) replaced by the token NOW.
+func maskNow(p *mt.Prog, t0, t1 time.Time) string {
+	var out []string
+	for _, m := range p.VM.Metrics {
+		for _, lv := range m.LabelValues {
+			v := mt.Val(lv.Value)
+			if x, ok := lv.Value.(*datum.Int); ok {
+				if g := x.Get(); g >= t0.Unix()-1 && g <= t1.Unix()+1 {
+					v = "i:NOW"
+				}
+			}
+			out = append(out, fmt.Sprintf("%s %q = %s !%v", m.Name, lv.Labels, v, lv.Expiry))
+		}
+	}
+	sort.Strings(out)
+	return strings.Join(out, "\n")
+}
+
+// compareStamps compares datum time stamps of the two VMs: equal, or both
+// inside the clock bracket of the step (processing time).
+func compareStamps(p1, p2 *mt.Prog, t0, t1 time.Time) string {
+	for i, m := range p1.VM.Metrics {
+		if i >= len(p2.VM.Metrics) {
+			break
+		}
+		m2 := p2.VM.Metrics[i]
+		for _, lv := range m.LabelValues {
+			lv2 := m2.FindLabelValueOrNil(lv.Labels)
+			if lv2 == nil {
+				continue
+			}
+			a, b := lv.Value.TimeUTC(), lv2.Value.TimeUTC()
+			if a.Equal(b) {
+				continue
+			}
+			in := func(t time.Time) bool { return !t.Before(t0) && !t.After(t1) }
+			if in(a) && in(b) {
+				continue
+			}
+			return fmt.Sprintf("%s%q is stamped %s with the history and %s in the fresh copy (clock bracket of the step: %s .. %s)", m.Name, lv.Labels, a.Format(time.RFC3339Nano), b.Format(time.RFC3339Nano), t0.UTC().Format(time.RFC3339Nano), t1.UTC().Format(time.RFC3339Nano))
+		}
+	}
+	return ""
+}
 
 func runCase(c *vlib.Ctx, w int, f fam, hist []string, line string) {
 	n1, n2 := fmt.Sprintf("w%d-hist", w), fmt.Sprintf("w%d-fresh", w)
@@ -185,13 +245,23 @@ func runCase(c *vlib.Ctx, w int, f fam, hist []string, line string) {
 		c.Report("harness-snapshot "+f.name, "snapshot not faithful:\n"+a+"\nvs\n"+b, nil)
 		return
 	}
+	tBefore := time.Now()
 	e1, _ := p1.Line("log", line)
 	e2, _ := p2.Line("log", line)
+	tAfter := time.Now()
 	d1, d2 := p1.Dump(false), p2.Dump(false)
+	if d1 != d2 {
+		// values that are "the time of processing" legitimately differ between the two VMs: mask integer
+		// values that both lie inside the clock bracket of this step
+		d1, d2 = maskNow(p1, tBefore, tAfter), maskNow(p2, tBefore, tAfter)
+	}
+	stampDiff := compareStamps(p1, p2, tBefore, tAfter)
 	rep := map[string]interface{}{"family": f.name, "history": hist, "line": line, "program": f.src}
 	key := fmt.Sprintf("%s history=%q line=%q", f.name, hist, line)
 	if e1 != e2 {
 		c.Report("error-differs "+key, fmt.Sprintf("after history %q the line %q raised %d runtime errors; in a fresh copy with the same metric values it raised %d", hist, line, e1, e2), rep)
+	} else if d1 == d2 && stampDiff != "" {
+		c.Report("stamp-differs "+key, fmt.Sprintf("after history %q the line %q stamped data differently than in a fresh copy with the same metric values: %s", hist, line, stampDiff), rep)
 	} else if d1 != d2 {
 		c.Report("effect-differs "+key, fmt.Sprintf("after history %q the line %q left\n%s\nbut in a fresh copy with the same metric values it left\n%s", hist, line, d1, d2), rep)
 	}
@@ -204,7 +274,7 @@ func runCase(c *vlib.Ctx, w int, f fam, hist []string, line string) {
 
 func main() {
 	c := vlib.Init("exploration")
-	maxH := c.Pick(2, 3)
+	maxH := c.Pick(3, 4)
 	type job struct {
 		f    fam
 		hist []string
@@ -239,5 +309,5 @@ func main() {
 	})
 	c.Set("families", len(fams))
 	c.Assume = []string{"datum timestamps are compared only through timestamp() values the programs store in gauges (processing-time stamps differ between the two VMs by construction)", strings.TrimSpace("histogram metrics are not part of this family (their state cannot be populated through the public datum API)")}
-	c.Finish("9 program families built around per-VM carried state (strptime memo, time register, terminate flag, match registers, matched flag, runtime errors) × all (history, line) pairs with |history|<=2 (thorough 3) over each family's 4-6 line alphabet; VM with history vs fresh VM populated with the same metric values; distinct_nontrivial = distinct cases with a non-empty history")
+	c.Finish("10 program families built around per-VM carried state (strptime memo, time register, terminate flag, match registers, matched flag, runtime errors) × all (history, line) pairs with |history|<=3 (thorough 4) over each family's 4-6 line alphabet; VM with history vs fresh VM populated with the same metric values; distinct_nontrivial = distinct cases with a non-empty history")
 }
